@@ -25,9 +25,11 @@ fn run_case(case: &str) -> String
 	let (i, used) = parse_instr(&t[4..]);
 	// optional trailing "! <bias hex>": every immediate is written as value + bias
 	let bias = if t.len() > 4 + used + 1 && t[4 + used] == "!" { parse_hex_i64(t[4 + used + 1]) } else { 0 };
+	// optional trailing "# <n>": wrong operand count (see stmtgen::render_full)
+	let arity = if t.len() > 4 + used + 1 && t[4 + used] == "#" { parse_hex_i64(t[4 + used + 1]) as i8 } else { 0 };
 	let mut rng = Rng::new(vseed);
 	let mut uniq = 0u32;
-	let (r, nbiased) = render_biased(&i, target, &mut rng, true, &mut uniq, bias);
+	let (r, nbiased) = render_full(&i, target, &mut rng, true, &mut uniq, bias, arity);
 	let src = format!("{}.addr 0x{:X};\n{}\n{}", r.pre, addr, r.stmt, r.post);
 	let res = run_pipeline(src.as_bytes(), "c04.asm");
 	let bytes = match res.regions.iter().find(|(a, _)| *a == addr) { Some((_, d)) => hex_bytes(d), None => "-".into() };
@@ -96,17 +98,83 @@ fn main()
 	let mut rng = Rng::new(seed);
 	let addrs: [u32; 17] = [0, 2, 0x10000000, 0x10000001, 0x10000002, 0x10000003, 0x20000000, 0x20000001, 0x20000002, 0x20000003,
 		0x7FFFFFFE, 0x80000000, 0xFFFFFFF0, 0xFFFFFFF4, 0xFFFFFFF8, 0xFFFFFFFA, 0xFFFFFFFC];
-	let mut emit_b = |addr: u32, target: Option<i64>, i: &Instruction, rng: &mut Rng, out: &mut Out, bias: i64|
+	let mut emit_f = |addr: u32, target: Option<i64>, i: &Instruction, rng: &mut Rng, out: &mut Out, bias: i64, arity: i64|
 	{
 		let vseed = rng.next();
 		if sh.mine()
 		{
 			let mut c = format!("A {:x} {:x} {} {}", addr, vseed, match target { Some(t) => hex_i64(t), None => "-".into() }, fmt_instr(i));
 			if bias != 0 { c.push_str(&format!(" ! {}", hex_i64(bias))); }
+			if arity != 0 { c.push_str(&format!(" # {}", hex_i64(arity))); }
 			let r = run_case(&c); out.line(&c, &r);
 		}
 	};
-	macro_rules! emit { ($a:expr, $t:expr, $i:expr, $r:expr, $o:expr) => { emit_b($a, $t, $i, $r, $o, 0) } }
+	macro_rules! emit { ($a:expr, $t:expr, $i:expr, $r:expr, $o:expr) => { emit_f($a, $t, $i, $r, $o, 0, 0) } }
+	macro_rules! emit_b { ($a:expr, $t:expr, $i:expr, $r:expr, $o:expr, $b:expr) => { emit_f($a, $t, $i, $r, $o, $b, 0) } }
+	// (0) operand-rule boundaries: every instruction form that has an immediate field, with the registers at the edges of
+	// each register class and the immediates at, just inside and just outside every field's range and scaling
+	{
+		use Instruction::*;
+		let regs: [u8; 6] = [0, 7, 8, 13, 14, 15];
+		let imms: [i32; 46] = [-4, -1, 0, 1, 2, 3, 4, 5, 7, 8, 9, 28, 30, 31, 32, 33, 60, 62, 63, 64, 66, 120, 124, 125, 126, 127, 128, 132, 252, 254, 255, 256,
+			257, 260, 504, 508, 509, 510, 512, 516, 1016, 1019, 1020, 1021, 1024, 4096];
+		let mut forms: Vec<Instruction> = Vec::new();
+		for &a in &regs { for &b in &regs { for &v in &imms
+		{
+			let (a, b, iv) = (reg(a), reg(b), ImmReg::Immediate(v));
+			for flags in [false, true] { forms.push(Add{flags, dst: a, lhs: b, rhs: iv}); forms.push(Sub{flags, dst: a, lhs: b, rhs: iv}); }
+			forms.push(Asr{dst: a, value: b, shift: iv}); forms.push(Lsl{dst: a, value: b, shift: iv}); forms.push(Lsr{dst: a, value: b, shift: iv});
+			forms.push(Ldr{dst: a, addr: b, off: iv}); forms.push(Ldrb{dst: a, addr: b, off: iv}); forms.push(Ldrh{dst: a, addr: b, off: iv});
+			forms.push(Str{src: a, addr: b, off: iv}); forms.push(Strb{src: a, addr: b, off: iv}); forms.push(Strh{src: a, addr: b, off: iv});
+		}}}
+		for &a in &regs { for &v in &imms
+		{
+			forms.push(Cmp{lhs: reg(a), rhs: ImmReg::Immediate(v)});
+			for flags in [false, true] { forms.push(Mov{flags, dst: reg(a), src: ImmReg::Immediate(v)}); }
+		}}
+		let quick_stride = if thorough { 1 } else { 3 };
+		for (k, f) in forms.iter().enumerate()
+		{
+			if is_pcrel(f) { continue; }
+			if (k + seed as usize) % quick_stride != 0 { continue; }
+			let addr = *rng.pick(&addrs);
+			emit!(addr, None, f, &mut rng, &mut out);
+		}
+	}
+	// (0b) wrong operand counts: every instruction kind with one operand too many (three ways) or one too few
+	{
+		let n = if thorough { 40_000 } else { 6_000 };
+		let mut k = 0;
+		// the kinds that have no 16-bit encoding of their own first, then random decodable halfwords
+		let wide = [Instruction::Bl{off: 0}, Instruction::Dmb, Instruction::Dsb, Instruction::Isb, Instruction::Udfw{info: 1},
+			Instruction::Mrs{dst: reg(0), src: sys(SYSREGS[0])}, Instruction::Msr{dst: sys(SYSREGS[0]), src: reg(0)},
+			Instruction::Nop, Instruction::Sev, Instruction::Wfe, Instruction::Wfi, Instruction::Yield];
+		for i in wide.iter() { for ar in [1i64, 2, 3, -1]
+		{
+			if ar == -1 && matches!(i, Instruction::Nop | Instruction::Sev | Instruction::Wfe | Instruction::Wfi | Instruction::Yield) { continue; }
+			let addr = *rng.pick(&addrs);
+			emit_f(addr, Some(addr as i64 + 4), i, &mut rng, &mut out, 0, ar);
+		}}
+		while k < n
+		{
+			let h = rng.below(0x10000) as u16;
+			if let Ok((2, i)) = Instruction::decode(&h.to_le_bytes())
+			{
+				let ar = *rng.pick(&[1i64, 2, 3, -1]);
+				if ar == -1 && matches!(i, Instruction::Nop | Instruction::Sev | Instruction::Wfe | Instruction::Wfi | Instruction::Yield) { continue; }
+				let addr = *rng.pick(&addrs);
+				let target = match i
+				{
+					Instruction::B{off, ..} => Some(addr as i64 + 4 + off as i64),
+					Instruction::Adr{off, ..} => Some((addr & !3) as i64 + 4 + off as i64),
+					Instruction::Ldr{addr: Register::PC, off: ImmReg::Immediate(off), ..} => Some((addr & !3) as i64 + 4 + off as i64),
+					_ => None,
+				};
+				emit_f(addr, target, &i, &mut rng, &mut out, 0, ar);
+				k += 1;
+			}
+		}
+	}
 	// (1) every encodable 16-bit instruction (all decodable halfwords), PC-relative ones with their target
 	let reps = if thorough { 4 } else { 1 };
 	for _ in 0..reps { for h in 0..=0xFFFFu32
@@ -163,7 +231,7 @@ fn main()
 					_ => None,
 				};
 				let bias = *rng.pick(&biases);
-				emit_b(addr, target, &i, &mut rng, &mut out, bias);
+				emit_b!(addr, target, &i, &mut rng, &mut out, bias);
 				k += 1;
 			}
 		}
